@@ -394,6 +394,17 @@ impl Parser {
 
             label.extend(tokens);
 
+            // A label is pasted into the generated code as `label(lex)`: anything that is not
+            // an expression (a stray `,` as in `"a",, foo`, a lone `=`, `#`, `'a`, ...) would make
+            // the whole derive output unparsable instead of producing a diagnostic.
+            if syn::parse2::<syn::Expr>(label.clone()).is_err() {
+                self.err(
+                    "Expected a callback: a path to a function or a closure `|lex| ...`",
+                    span,
+                );
+                return None;
+            }
+
             return Some(Callback::Label(label));
         }
 
